@@ -395,10 +395,11 @@ VISIT = r'''
  * is a symbolic input, so "the watched tuple is visited equally often by both, and the totals agree" for ALL
  * watched tuples is multiset equality of the visited iterator values. ---- */
 #define REFCAP %(refcap)d
-static long wa, wb, wc; static int nvis[2], nwatch[2]; static int which; static long lastv[2][3];
+static long wa, wb, wc; static int nvis[2], nwatch[2]; static int which; static long lastv[2][3]; static int tr_wrapped;
 static void rec3(void *out, long a, long b, long c) {
+  if (which == 1 && ((a >= (1L << 31) && a < (1L << 32)) || (b >= (1L << 31) && b < (1L << 32)))) tr_wrapped = 1;   /* a value 2^32 too large: 32-bit unsigned index arithmetic zero-extended into a 64-bit iterator */
   if (which == 0) { if (nvis[0] >= REFCAP) { __CPROVER_assume(0); } }        /* stated bound on the sequential trip count */
-  else if (nvis[1] >= REFCAP + 1) { VASSERT(0, "translated code executes more iterations than the sequential loop"); __CPROVER_assume(0); }
+  else if (nvis[1] >= REFCAP + 1) { if (!(VERIF_EXCL_WRAPPED && tr_wrapped)) { VASSERT(0, "translated code executes more iterations than the sequential loop"); } __CPROVER_assume(0); }
   nvis[which]++; lastv[which][0] = a; lastv[which][1] = b; lastv[which][2] = c;
   if (a == wa && b == wb && c == wc) nwatch[which]++;
 }
@@ -410,6 +411,8 @@ def visit_harness(prog, mode, tr_text, active_excl=()):
     a = []
     a.append('/* program %s mode %s : %s */' % (prog.name, mode, prog.desc))
     a.append(PRELUDE)
+    wrapped_excl = any(k in prog.excl_post and 'tr_wrapped' in str(prog.excl_post[k]) and (not isinstance(prog.excl_post[k], (list, tuple)) or mode in prog.excl_post[k][1]) for k in active_excl)
+    a.append('#define VERIF_EXCL_WRAPPED %d' % (1 if wrapped_excl else 0))
     a.append(VISIT % dict(refcap=prog.refcap))
     a.append(prog.globals)
     ref = prog.ref if prog.ref is not None else strip_attrs(prog.okl)
@@ -444,7 +447,12 @@ def visit_harness(prog, mode, tr_text, active_excl=()):
     m.append('  which = 1; tr_%s(%s);' % (prog.kernel, ', '.join(call)))
     for k in active_excl:
         if k in prog.excl_post:
-            m.append('  VASSUME(!(%s));   /* known finding %s excluded */' % (prog.excl_post[k], k))
+            pred = prog.excl_post[k]
+            if isinstance(pred, (list, tuple)):
+                if mode not in pred[1]:
+                    continue
+                pred = pred[0]
+            m.append('  VASSUME(!(%s));   /* known finding %s excluded */' % (pred, k))
     for s in prog.post_assumes:
         m.append('  VASSUME(%s);' % s)
     m.append('  OUT(n_ref, nvis[0]); OUT(n_tr, nvis[1]); OUT(w_ref, nwatch[0]); OUT(w_tr, nwatch[1]);')
@@ -536,7 +544,8 @@ def known_reconfirm(ctx, progs, known, harness_fn, timeout=150):
         for p in progs:
             mode = None
             if key in p.excl_post:
-                mode = 'CUDA'
+                pred = p.excl_post[key]
+                mode = pred[1][0] if isinstance(pred, (list, tuple)) else 'CUDA'
             elif key in p.excl:
                 pred = p.excl[key]
                 mode = pred[1][0] if isinstance(pred, (list, tuple)) else 'CUDA'
